@@ -97,6 +97,13 @@ func (in zzC10Input) unusable() bool {
 
 func zzC10Build(in zzC10Input) (*datadoghqv1alpha1.ExtendedDaemonSetReplicaSet, *corev1.Node, *datadoghqv1alpha1.ExtendedDaemonsetSetting) {
 	rs := zzReplicaSet()
+	// a replica set written by an older controller version may lack spec.templateGeneration (the
+	// field is optional) while it carries the template-hash annotation: what is stamped on the pod is
+	// what the comparison expects
+	if nondet.Bool("replicaSetWithoutTemplateGeneration") {
+		rs.Annotations = map[string]string{datadoghqv1alpha1.MD5ExtendedDaemonSetAnnotationKey: rs.Spec.TemplateGeneration}
+		rs.Spec.TemplateGeneration = ""
+	}
 	rs.Spec.Template = corev1.PodTemplateSpec{
 		ObjectMeta: metav1.ObjectMeta{Labels: map[string]string{"app": "agent"}},
 		Spec:       corev1.PodSpec{Containers: []corev1.Container{{Name: "agent", Image: "agent:1", Resources: zzRes("100m")}}},
